@@ -29,9 +29,134 @@ def graph_value(F, stranded):
         "right_order": Opaque("BoomHashMap", {"index", "right_order"})})
 
 
+# =========================================================================== the index layer (shared by find_link / find_edges tables)
+
+class IndexLayer(Oracles):
+    """Ground truth: for a probe k-mer (a named probe `pid`, in its own form `k` or its reverse complement `rc`) the oracle
+    `hit:<pid><form>:<which>` says whether it IS the <which>-side end k-mer of some node.  Every way of looking an end k-mer up answers
+    from that truth:
+      * BoomHashMap::get (key-verified)            -> Some(node) iff hit
+      * Mphf::try_hash (keyless minimal perfect hash) -> the node's slot if hit; for an absent key either None or the slot of an
+                                                     ARBITRARY other node (oracle `alias:…`) — whoever uses it must confirm the hit
+      * slot -> node id tables, node sequence -> terminal k-mer, k-mer equality: consistent with the above (an aliased node's end k-mer
+        is not the probe)."""
+
+    def pid_form(self, k):
+        t = tags_of(k)
+        pid = ""
+        for x in t:
+            if x.startswith("base-"):
+                pid = "b%s/" % x[5:]
+        return pid, ("rc" if "rc-form" in t else "k")
+
+    def which_of(self, v):
+        t = tags_of(v)
+        return "left_order" if "left_order" in t else ("right_order" if "right_order" in t else None)
+
+    def hit(self, pid, form, which):
+        return self.choose("hit:%s%s:%s" % (pid, form, which), (False, True))
+
+    def index_call(self, it, fn, args, dest_ty, term, caller):
+        path = fn.get("path", "")
+        name = path.split("::")[-1]
+        if fn.get("trait") == "Mer" and name == "rc" and args:
+            k = recv(it, args[0])
+            t = set(tags_of(k))
+            if "kmer" in t or "ext" in t:
+                if "rc-form" in t:
+                    t.discard("rc-form")
+                    t.add("k-form")
+                else:
+                    t.discard("k-form")
+                    t.add("rc-form")
+                return Opaque("K", t)
+        if "BoomHashMap" in path and name == "get":
+            which = self.which_of(recv(it, args[0]))
+            k = recv(it, args[1])
+            if which is None or not isinstance(k, Opaque):
+                raise Undecided("index look-up with unknown index/key")
+            pid, form = self.pid_form(k)
+            self.observe("lookup", (form, which))
+            if self.hit(pid, form, which):
+                return some(Ref(Cell(Int(32, False, bits=[TOP] * 32, tags=frozenset({"id:%s%s:%s" % (pid, form, which)})), "slot")))
+            return none()
+        if "BoomHashMap" in path:
+            self.observe("other-index-op", name)
+            raise Undecided("index operation %s is not the key-verified get" % name)
+        if "Mphf" in path and name in ("try_hash", "hash") and len(args) == 2:
+            which = self.which_of(recv(it, args[0]))
+            k = recv(it, args[1])
+            if which is None or not isinstance(k, Opaque):
+                raise Undecided("hash of an unknown key / in an unknown index")
+            pid, form = self.pid_form(k)
+            self.observe("lookup", (form, which))
+            self.observe("keyless-lookup", (form, which))
+            if self.hit(pid, form, which):
+                slot = Int(64, False, bits=[TOP] * 64, tags=frozenset({"slot:true:%s%s:%s" % (pid, form, which)}))
+                return some(slot) if name == "try_hash" else slot
+            if name == "hash":
+                raise Undecided("Mphf::hash of a key that was not used to build the function (arbitrary result / panic)")
+            if self.choose("alias:%s%s:%s" % (pid, form, which), (False, True)):
+                return some(Int(64, False, bits=[TOP] * 64, tags=frozenset({"slot:alias:%s%s:%s" % (pid, form, which)})))
+            return none()
+        # slot -> node id (a Vec<u32> / slice stored next to the hash function, inside the same index value)
+        if name in ("get", "index", "get_unchecked") and len(args) == 2 and isinstance(args[1], Int) and any(x.startswith("slot:") for x in tags_of(args[1])):
+            cont = recv(it, args[0])
+            if isinstance(cont, Opaque) and self.which_of(cont):
+                st = [x for x in tags_of(args[1]) if x.startswith("slot:")][0].split(":")
+                kind, rest = st[1], ":".join(st[2:])
+                idv = Int(32, False, bits=[TOP] * 32, tags=frozenset({("id:%s" % rest) if kind == "true" else ("id:alias/%s" % rest)}))
+                r_ = Ref(Cell(idv, "node-id"))
+                return some(r_) if name == "get" else r_
+        if "PackedDnaStringSet" in path and name == "get" and len(args) == 2:
+            ids = [x for x in tags_of(args[1]) if x.startswith("id:")]
+            if ids:
+                return Opaque("DnaStringSlice", {"node-seq", "of-" + ids[0]})
+        if fn.get("trait") == "Vmer" and name in ("term_kmer", "first_kmer", "last_kmer") and args:
+            sq = recv(it, args[0])
+            of = [x for x in tags_of(sq) if x.startswith("of-id:")]
+            if of:
+                sd = dir_of(args[1]) if name == "term_kmer" else (LEFT if name == "first_kmer" else RIGHT)
+                return Opaque("K", {"kmer", "end-of", of[0], "endside-%s" % sd})
+        if name in ("eq", "ne") and fn.get("trait", "").endswith("PartialEq") and len(args) == 2:
+            a, b = recv(it, args[0]), recv(it, args[1])
+            if isinstance(a, Opaque) and isinstance(b, Opaque):
+                for x, y in ((a, b), (b, a)):
+                    tx = tags_of(x)
+                    if "end-of" in tx and "end-of" not in tags_of(y):
+                        of = [t for t in tx if t.startswith("of-id:")][0][6:]
+                        side = [t for t in tx if t.startswith("endside-")][0][8:]
+                        pid, form = self.pid_form(y)
+                        if of.startswith("alias/"):
+                            same = False          # the aliased node's end k-mer is some other k-mer (the probe is absent from this index)
+                        else:
+                            # the node found for (pid form : which): its <which>-side end IS that probe form
+                            f2, which = of.rsplit(":", 1)
+                            wside = LEFT if which == "left_order" else RIGHT
+                            if str(wside) == side and f2 == pid + form:
+                                same = True
+                            elif str(wside) == side and f2 == pid + ("k" if form == "rc" else "rc"):
+                                same = self.choose("kmer-is-its-own-rc", (False, True))
+                            else:
+                                raise Undecided("comparison of a probe with the other end of a node")
+                        return mkbool(same if name == "eq" else not same)
+                fa, fb = self.pid_form(a), self.pid_form(b)
+                if ("kmer" in tags_of(a) or "ext" in tags_of(a)) and ("kmer" in tags_of(b) or "ext" in tags_of(b)) and fa[0] == fb[0]:
+                    same = True if fa[1] == fb[1] else self.choose("kmer-is-its-own-rc", (False, True))
+                    return mkbool(same if name == "eq" else not same)
+        return NotImplemented
+
+    def opaque_index(self, it, v, idx, base):
+        if isinstance(idx, Int) and any(x.startswith("slot:") for x in tags_of(idx)) and self.which_of(v):
+            st = [x for x in tags_of(idx) if x.startswith("slot:")][0].split(":")
+            kind, rest = st[1], ":".join(st[2:])
+            return Ref(Cell(Int(32, False, bits=[TOP] * 32, tags=frozenset({("id:%s" % rest) if kind == "true" else ("id:alias/%s" % rest)})), "node-id"))
+        return None
+
+
 # =========================================================================== B.3 find_link
 
-class LinkOracles(Oracles):
+class LinkOracles(IndexLayer):
     DOMAINS = {"hit:k:left_order": (False, True), "hit:k:right_order": (False, True),
                "hit:rc:left_order": (False, True), "hit:rc:right_order": (False, True), "kmer-is-its-own-rc": (False, True)}
 
@@ -45,33 +170,7 @@ class LinkOracles(Oracles):
         name = path.split("::")[-1]
         if is_print_call(fn):
             return Opaque(dest_ty, {"fmt"})
-        if fn.get("trait") == "Mer" and name == "rc":
-            k = recv(it, args[0])
-            if "rc-form" in tags_of(k):
-                return Opaque("K", {"kmer", "k-form"})
-            return Opaque("K", {"kmer", "rc-form"})
-        if name in ("eq", "ne") and fn.get("trait", "").endswith("PartialEq") and len(args) == 2:
-            a, b = recv(it, args[0]), recv(it, args[1])
-            fa = "rc" if "rc-form" in tags_of(a) else ("k" if "k-form" in tags_of(a) else None)
-            fb = "rc" if "rc-form" in tags_of(b) else ("k" if "k-form" in tags_of(b) else None)
-            if fa and fb:
-                same = True if fa == fb else self.choose("kmer-is-its-own-rc", (False, True))
-                return mkbool(same if name == "eq" else not same)
-        if "BoomHashMap" in path and name == "get":
-            idx = recv(it, args[0])
-            which = "left_order" if "left_order" in tags_of(idx) else ("right_order" if "right_order" in tags_of(idx) else None)
-            k = recv(it, args[1])
-            form = "rc" if "rc-form" in tags_of(k) else ("k" if "k-form" in tags_of(k) else None)
-            if which is None or form is None:
-                raise Undecided("index look-up with unknown index/key")
-            self.observe("lookup", (form, which))
-            if self.choose("hit:%s:%s" % (form, which), (False, True)):
-                return some(Ref(Cell(Int(32, False, bits=[TOP] * 32, tags=frozenset({"id:%s:%s" % (form, which)})), "slot")))
-            return none()
-        if "BoomHashMap" in path:
-            self.observe("other-index-op", name)
-            raise Undecided("index operation %s is not the key-verified get" % name)
-        return NotImplemented
+        return self.index_call(it, fn, args, dest_ty, term, caller)
 
 
 def find_link_spec(g):
@@ -146,7 +245,9 @@ def find_link_table(F, rep, rule="C03.1"):
 
 # =========================================================================== find_edges
 
-class EdgesOracles(Oracles):
+class EdgesOracles(IndexLayer):
+    """find_edges: one probe per extension base; each probe is resolved through the index layer (whatever find_link / its helpers do)"""
+
     def __init__(self, script, d):
         Oracles.__init__(self, script)
         self.fixed("dir", d)
@@ -155,9 +256,11 @@ class EdgesOracles(Oracles):
     def on_call(self, it, fn, args, dest_ty, term, caller):
         path = fn.get("path", "")
         name = path.split("::")[-1]
-        if "PackedDnaStringSet" in path and name == "get":
-            return Opaque("DnaStringSlice", {"node-seq"})
-        if fn.get("trait") == "Vmer" and name in ("term_kmer", "first_kmer", "last_kmer"):
+        if is_print_call(fn):
+            return Opaque(dest_ty, {"fmt"})
+        if "PackedDnaStringSet" in path and name == "get" and not any(x.startswith("id:") for x in tags_of(args[1])):
+            return Opaque("DnaStringSlice", {"node-seq", "own-node"})
+        if fn.get("trait") == "Vmer" and name in ("term_kmer", "first_kmer", "last_kmer") and "own-node" in tags_of(recv(it, args[0])):
             sd = dir_of(args[1]) if name == "term_kmer" else (LEFT if name == "first_kmer" else RIGHT)
             self.observe("term", sd)
             return Opaque("K", {"term", "side-%s" % sd})
@@ -165,30 +268,29 @@ class EdgesOracles(Oracles):
             sd = dir_of(args[1])
             b = args[2].val if isinstance(args[2], Int) and args[2].is_conc() else None
             self.observe("has_ext", (sd, b))
-            return mkbool(self.choose("e%s" % b, ("none", "ext-nolink", "ext-link")) != "none")
+            return mkbool(self.choose("e%s" % b, (False, True)))
+        if path.startswith("Exts::") and name == "get" and len(args) == 2 and "node-exts" in tags_of(recv(it, args[0])):
+            sd = dir_of(args[1])
+            out = []
+            for b in range(4):
+                self.observe("has_ext", (sd, b))
+                if self.choose("e%s" % b, (False, True)):
+                    out.append(Int(8, False, val=b))
+            return VecV(out)
         if fn.get("trait") == "Kmer" and name in ("extend", "extend_left", "extend_right"):
             k = recv(it, args[0])
             sd = dir_of(args[2]) if name == "extend" else (LEFT if name == "extend_left" else RIGHT)
             b = args[1].val if isinstance(args[1], Int) and args[1].is_conc() else None
             self.observe("extend", (frozenset(tags_of(k)), sd, b))
-            return Opaque("K", {"ext", "base-%s" % b})
-        if name == "find_link":
-            k = recv(it, args[1])
-            sd = dir_of(args[2])
-            b = None
-            for t in tags_of(k):
-                if t.startswith("base-"):
-                    b = int(t[5:]) if t[5:].isdigit() else None
-            self.observe("find_link", (b, sd))
-            if self.choose("e%s" % b, ("none", "ext-nolink", "ext-link")) == "ext-link":
-                return some(Tup([Int(64, False, bits=[TOP] * 64, tags=frozenset({"link-%s" % b})), dir_v(LEFT), mkbool(False)]))
-            return none()
-        return NotImplemented
+            return Opaque("K", {"ext", "kmer", "k-form", "base-%s" % b})
+        if name == "find_link" and len(args) == 3:
+            self.observe("find_link", (None, dir_of(args[2])))
+        return self.index_call(it, fn, args, dest_ty, term, caller)
 
     def opaque_index(self, it, v, idx, base):
         if "exts-vec" in tags_of(v):
             return Ref(Cell(Opaque(EXTS, {"node-exts"}), "exts[node]"))
-        return None
+        return IndexLayer.opaque_index(self, it, v, idx, base)
 
 
 def find_edges_table(F, rep, rule="C03.3"):
@@ -209,22 +311,38 @@ def find_edges_table(F, rep, rule="C03.3"):
                 raise Unsupported("edge list is %r" % (r,))
             out = []
             for e in r.elems:
-                b = None
+                ident = None
                 for t in tags_of(e.fields[0]):
-                    if t.startswith("link-"):
-                        b = int(t[5:])
-                out.append(b)
+                    if t.startswith("id:"):
+                        ident = t[3:]
+                out.append((ident, dir_of(e.fields[1]), bool(e.fields[2].val) if isinstance(e.fields[2], Int) and e.fields[2].is_conc() else "?"))
             return tuple(out)
-        leaves = explore(mk, run)
+        try:
+            leaves = explore(mk, run, max_runs=20000)
+        except Unsupported as e:
+            rep.inconclusive(rule, "find_edges/dir=%s" % dir_name(d), "find_edges: %s" % e)
+            continue
         problems = []
         for a, out, h in leaves:
             rep.evaluations += 1
             if isinstance(out, tuple) and out and out[0] in ("inconclusive", "diverge"):
                 problems.append(("%s" % (out,), a, out[0] == "inconclusive"))
                 continue
-            want = tuple(b for b in range(4) if a.get("e%d" % b) == "ext-link")
-            if out != want:
-                problems.append(("edges reported for bases %s; extensions with a resolvable link are %s" % (list(out), list(want)), a, False))
+            # specification: for every extension base present, the probe resolves as find_link specifies (unstranded graph); a probe that is
+            # no node end in either index yields no edge — whatever a keyless hash says about it
+            want = []
+            for b in range(4):
+                if not a.get("e%d" % b):
+                    continue
+                pid = "b%d/" % b
+                fwd_which, fwd_side = ("right_order", RIGHT) if d == LEFT else ("left_order", LEFT)
+                rc_which, rc_side = ("left_order", LEFT) if d == LEFT else ("right_order", RIGHT)
+                if a.get("hit:%sk:%s" % (pid, fwd_which)):
+                    want.append(("%sk:%s" % (pid, fwd_which), fwd_side, False))
+                elif a.get("hit:%src:%s" % (pid, rc_which)):
+                    want.append(("%src:%s" % (pid, rc_which), rc_side, True))
+            if list(out) != want:
+                problems.append(("edges reported: %s; the extensions present resolve to %s (an extension whose k-mer is no node end yields no edge)" % (list(out), want), a, False))
             for sd in h.obs.get("term", []):
                 if sd != d:
                     problems.append(("the terminal k-mer of the %s end is used for the %s side" % (dir_name(sd) if sd in (0, 1) else sd, dir_name(d)), a, False))
@@ -243,13 +361,14 @@ def find_edges_table(F, rep, rule="C03.3"):
         key = "find_edges/dir=%s" % dir_name(d)
         hard = [p for p in problems if not p[2]]
         if hard:
-            rep.violated(rule, key, "find_edges(%s): %s  [row %s]" % (dir_name(d), hard[0][0], hard[0][1]), site=F.site(body, body["line"]),
+            rep.violated(rule, key, "find_edges(%s): %s  [row %s]" % (dir_name(d), hard[0][0], {k: v for k, v in hard[0][1].items() if v}), site=F.site(body, body["line"]),
                          witness={"kind": "row", "row": {k: str(v) for k, v in hard[0][1].items()}, "count": len(hard)})
         elif problems:
             rep.inconclusive(rule, key, "find_edges: %s" % problems[0][0])
         else:
-            rep.holds(rule, key, "find_edges(%s): on all %d rows one edge per extension base whose probe k-mer resolves, probes built from the %s-end "
-                      "k-mer in direction %s" % (dir_name(d), len(leaves), dir_name(d), dir_name(d)), sample={"rows": len(leaves)})
+            rep.holds(rule, key, "find_edges(%s): on all %d rows (extension present / absent per base; each probe a node end in the same-strand index, in the "
+                      "reverse-complement index, or in neither) one edge per extension whose probe is a node end, with the arrival side and flip find_link "
+                      "specifies; probes built from the %s-end k-mer in direction %s" % (dir_name(d), len(leaves), dir_name(d), dir_name(d)), sample={"rows": len(leaves)})
 
 
 # =========================================================================== B.4 pruning
@@ -978,6 +1097,26 @@ def finish_tables(F, rep, rule="C19.1"):
                     vs = [v.val if isinstance(v, Int) and v.is_conc() else "?" for v in vals.elems] if isinstance(vals, VecV) else None
                     self.built.append((name, ks, vs))
                     return Opaque("BoomHashMap", {"built-%d" % (len(self.built) - 1)})
+                if fn.get("trait") == "Kmer" and name == "empty":
+                    return Opaque("K", {"kmer"}, {"end": "empty", "node": None})
+                if "Mphf" in path and name in ("new", "new_parallel", "new_serial", "new_parallel_with_keys") and len(args) >= 2:
+                    # a keyless minimal perfect hash over the given keys: some bijection keys -> 0..n (here: the reversed order, so that a
+                    # confusion of slot and position shows)
+                    src = args[1]
+                    kv = it.read(src.cell, src.path) if isinstance(src, Ref) else src
+                    el = list(kv.elems) if isinstance(kv, (VecV, Arr)) else None
+                    if el is None:
+                        raise Undecided("Mphf built from %r" % (kv,))
+                    ks = [(k.info.get("end"), k.info.get("node")) if isinstance(k, Opaque) else repr(k) for k in el]
+                    return Opaque("Mphf", {"mphf"}, {"keys": ks, "perm": list(reversed(range(len(ks))))})
+                if "Mphf" in path and name in ("hash", "try_hash") and len(args) == 2:
+                    m = recv(it, args[0])
+                    k = recv(it, args[1])
+                    key = (k.info.get("end"), k.info.get("node")) if isinstance(k, Opaque) else None
+                    if isinstance(m, Opaque) and "keys" in m.info and key in m.info["keys"]:
+                        slot = Int(64, False, val=m.info["perm"][m.info["keys"].index(key)])
+                        return slot if name == "hash" else some(slot)
+                    raise Undecided("hash of a key outside the build set")
                 if name == "clone" and args:
                     return recv(it, args[0])
                 # queries on a node's extensions: any answer is possible, the indices must not depend on it
@@ -1037,6 +1176,13 @@ def finish_tables(F, rep, rule="C19.1"):
                         if t.startswith("built-"):
                             idx = int(t[6:])
                     slots[nm] = h.built[idx] if idx is not None and idx < len(h.built) else None
+                    if slots[nm] is None and isinstance(v, Adt):
+                        # a hand-made index: a keyless hash plus a slot -> node id table; read it back as key -> id
+                        mph = [f for f in v.fields if isinstance(f, Opaque) and "keys" in f.info]
+                        tabs = [f for f in v.fields if isinstance(f, VecV) and all(isinstance(e, Int) and e.is_conc() for e in f.elems)]
+                        if len(mph) == 1 and len(tabs) == 1 and len(tabs[0].elems) == len(mph[0].info["keys"]):
+                            ks, perm = mph[0].info["keys"], mph[0].info["perm"]
+                            slots[nm] = ("mphf+table", list(ks), [tabs[0].elems[perm[i]].val for i in range(len(ks))])
                 want = {"left_order": [("first_kmer", i) for i in range(n)], "right_order": [("last_kmer", i) for i in range(n)]}
                 for nm in ("left_order", "right_order"):
                     b_ = slots[nm]
@@ -1269,12 +1415,12 @@ def beam_expand_table(F, rep, rule="C03.7"):
     try:
         body = pub_fn(F, "expand_state")
     except Unsupported as e:
-        rep.violated(rule, "expand_state", str(e), witness={"kind": "anchor-missing"})
+        rep.inconclusive(rule, "expand_state", "role discovery (private helper of max_path_beam): %s" % e)
         return
     st_names = [f["name"] for f in F.adts.get("graph::State", {"variants": [{"fields": []}]})["variants"][0]["fields"]]
     status = F.adts.get("graph::Status")
     if not {"path", "score", "status"} <= set(st_names) or not status:
-        rep.violated(rule, "expand_state", "anchor-missing: graph::State / graph::Status", witness={"kind": "anchor-missing"})
+        rep.inconclusive(rule, "expand_state", "role discovery: private types graph::State / graph::Status not found")
         return
     vnames = [v["name"] for v in status["variants"]]
 
